@@ -342,3 +342,58 @@ func ErrorNamesInvalidTuplesetTuple(rc *ref.Case, err error) bool {
 	}
 	return false
 }
+
+// ClassifyV2 attributes a disagreement between the reference and an answer of a server running the
+// weighted-graph engine to the listed defects of that engine (see the C03 findings). It is used by
+// checks other than C03, which do not observe whether the request fell back to the default engine.
+func ClassifyV2(prefix string, p *Prepared, rc *ref.Case, rq Request, k ref.Tri, o drive.Outcome) string {
+	typ, _ := ref.SplitObject(rq.Object)
+	kind := ref.UserKind(rq.User)
+	if o.Err != nil {
+		if ErrorNamesInvalidTuplesetTuple(rc, o.Err) || V2TuplesetUsersetValue(rc, rq.Object, rq.Relation, rq.User) == ref.E {
+			return prefix + "-" + FindingV2TuplesetUserset
+		}
+		return ""
+	}
+	if k == ref.E && SwallowExplainsV2(rc, rq.Object, rq.Relation, rq.User, o.Allowed) {
+		return prefix + "-v2-" + FindingCondSwallowed
+	}
+	if ak := V2TuplesetUsersetValue(rc, rq.Object, rq.Relation, rq.User); ak >= 0 && ak != k && ((o.Allowed && ak == ref.T) || (!o.Allowed && ak == ref.F)) {
+		return prefix + "-" + FindingV2TuplesetUserset
+	}
+	switch {
+	case kind == "object" && k == ref.T && !o.Allowed && p.Ref.ReachesRecursion(typ, rq.Relation):
+		return prefix + "-" + FindingV2SharedVisited
+	case kind == "userset" && k == ref.T && !o.Allowed:
+		return prefix + "-v2-userset-subject-silent-divergence"
+	case kind == "userset" && k == ref.F && o.Allowed && HasExclusion(p.Ref, typ, rq.Relation):
+		return prefix + "-v2-userset-subject-allowed-under-exclusion"
+	}
+	return ""
+}
+
+// ClassifyListUsersError attributes an unexpected ListUsers error to a known finding ("" if none).
+func ClassifyListUsersError(prefix string, p *Prepared, typ, relation, filterType, filterRel string, err error) string {
+	return ""
+}
+
+// ClassifyListUsersMissing attributes omitted users to a known finding of ListUsers ("" if none).
+func ClassifyListUsersMissing(prefix string, p *Prepared, rc *ref.Case, object, relation, filterType, filterRel string, missing []string) string {
+	return ClassifyListUsersExclusion(prefix, p, object, relation)
+}
+
+// FindingListUsersExclusion: ListUsers' bookkeeping of excluded users and wildcards across unions,
+// intersections and nested exclusions is wrong: users removed by an exclusion in one branch are
+// dropped although another branch grants them, users subtracted next to a wildcard are returned,
+// nested exclusions return subtracted users.
+const FindingListUsersExclusion = "listusers-exclusion-bookkeeping"
+
+// ClassifyListUsersExclusion is the firing condition of FindingListUsersExclusion: the requested
+// relation can involve an exclusion (ref.Model.ReachesExclusion).
+func ClassifyListUsersExclusion(prefix string, p *Prepared, object, relation string) string {
+	typ, _ := ref.SplitObject(object)
+	if p.Ref.ReachesExclusion(typ, relation) {
+		return prefix + "-" + FindingListUsersExclusion
+	}
+	return ""
+}
